@@ -148,6 +148,16 @@ pub fn c12(ctx: &mut Ctx, acc: &mut Acc) -> i32 {
     plain_elem!(f64);
     plain_elem!(DateTime<Tz>);
     plain_elem!(Result<u8, String>);
+    // zero-sized in memory but not on the wire, and the other way round (size_of says nothing about the encoding)
+    plain_elem!(((),));
+    plain_elem!(((), ()));
+    plain_elem!([(); 0]);
+    plain_elem!([u64; 0]);
+    plain_elem!((PhantomData<String>,));
+    plain_elem!(Box<()>);
+    plain_elem!(Rc<()>);
+    plain_elem!(Arc<PhantomData<String>>);
+    plain_elem!(PhantomData<String>);
     if k % ctx.shards == ctx.shard {
         maps::<String, u32>(ctx, acc, "String=>u32");
     }
